@@ -1,12 +1,78 @@
 /-
-  Props/C06.lean — least-squares optimality. PROPERTY THEOREMS ONLY.
+  Props/C06.lean — the fit is the least-squares minimiser over the admissible space.
+  PROPERTY THEOREMS ONLY. Linear algebra over an arbitrary linearly ordered field `K` (exact arithmetic).
+  `X` is the design matrix (rows = (snapshot, atom, component), columns = basis vectors), `y` the forces.
 -/
 import SymfcModel.Model.Inst
+import SymfcModel.Lemmas.LinAlg
+import Mathlib.Data.Matrix.ColumnRowPartitioned
 namespace Symfc.C06
-open Symfc
+open Symfc Matrix
 
-/-- C06.c: `solve_linear_equation` inspects LAPACK's `info` and raises when it is non-zero (after the fix of F3),
-    so coefficients that do not solve the normal equations are never returned silently. -/
-theorem posv_failure_is_loud : Gen.posvInfoChecked = true := by decide
+variable {K : Type*} [Field K] [LinearOrder K] [IsStrictOrderedRing K]
+variable {r k m k₂ k₃ β : Type*} [Fintype r] [Fintype k] [Fintype m] [Fintype k₂] [Fintype k₃] [Fintype β]
+
+/-- C06.b: any coefficient vector satisfying the normal equations minimises the sum of squared force residuals over
+    ALL coefficient vectors (no uniqueness or rank assumption: under-determined data included). -/
+theorem normal_equations_give_a_minimiser (X : Matrix r k K) (y : r → K) (c : k → K)
+    (h : (Xᵀ * X) *ᵥ c = Xᵀ *ᵥ y) (c' : k → K) :
+    (X *ᵥ c - y) ⬝ᵥ (X *ᵥ c - y) ≤ (X *ᵥ c' - y) ⬝ᵥ (X *ᵥ c' - y) :=
+  LinAlg.normal_eq_minimises X y c h c'
+
+/-- C06.b: the residual is orthogonal to the force pattern produced by every basis vector (every column of X) -/
+theorem residual_orthogonal_to_every_basis_force_pattern (X : Matrix r k K) (y : r → K) (c : k → K)
+    (h : (Xᵀ * X) *ᵥ c = Xᵀ *ᵥ y) : Xᵀ *ᵥ (X *ᵥ c - y) = 0 :=
+  LinAlg.normal_eq_residual_orthogonal X y c h
+
+/-- C06.a: `XᵀX` and `Xᵀy` accumulated over ANY partition of the rows into batches (atom batches × snapshot
+    batches: `b` maps a row to its batch) equal those of the stacked design matrix. -/
+theorem gram_accumulated_over_batches [DecidableEq β] (X : Matrix r k K) (y : r → K) (b : r → β) :
+    Xᵀ * X = ∑ j : β, Matrix.of (fun i i' => ∑ s ∈ Finset.univ.filter (fun s => b s = j), X s i * X s i') ∧
+    Xᵀ *ᵥ y = ∑ j : β, (fun i => ∑ s ∈ Finset.univ.filter (fun s => b s = j), X s i * y s) :=
+  ⟨LinAlg.gram_sum_over_batches X b, LinAlg.rhs_sum_over_batches X y b⟩
+
+omit [LinearOrder K] [IsStrictOrderedRing K] in
+/-- C06.a: projecting the accumulated Gram matrix with the eigenvector matrix `E` afterwards
+    (`compress_eigvecs.T @ mat @ compress_eigvecs`) is the Gram matrix of the projected design matrix `X̃ E`. -/
+theorem projected_gram (Xt : Matrix r m K) (E : Matrix m k K) (y : r → K) :
+    (Xt * E)ᵀ * (Xt * E) = Eᵀ * (Xtᵀ * Xt) * E ∧ (Xt * E)ᵀ *ᵥ y = Eᵀ *ᵥ (Xtᵀ *ᵥ y) := by
+  constructor
+  · rw [Matrix.transpose_mul]; simp only [Matrix.mul_assoc]
+  · rw [Matrix.transpose_mul, ← Matrix.mulVec_mulVec]
+
+omit [LinearOrder K] [IsStrictOrderedRing K] in
+/-- C06.a: the block assembly `np.block([[m22, m23], [m23.T, m33]])`, `np.hstack([m2y, m3y])` is the Gram matrix /
+    right-hand side of the joint design matrix `[X₂ | X₃]` (and likewise, nested, for three orders). -/
+theorem block_assembly_is_joint_gram (X₂ : Matrix r k₂ K) (X₃ : Matrix r k₃ K) (y : r → K) :
+    (Matrix.fromCols X₂ X₃)ᵀ * (Matrix.fromCols X₂ X₃) =
+      Matrix.fromBlocks (X₂ᵀ * X₂) (X₂ᵀ * X₃) ((X₂ᵀ * X₃)ᵀ) (X₃ᵀ * X₃) ∧
+    (Matrix.fromCols X₂ X₃)ᵀ *ᵥ y = Sum.elim (X₂ᵀ *ᵥ y) (X₃ᵀ *ᵥ y) := by
+  constructor
+  · rw [Matrix.transpose_fromCols, Matrix.fromRows_mul_fromCols, Matrix.transpose_mul, Matrix.transpose_transpose]
+  · rw [Matrix.transpose_fromCols, Matrix.fromRows_mulVec]
+
+/-- outcome of `solve_linear_equation` given LAPACK's contract for `posv`
+    (`info = 0` ⇒ the returned `x` solves `A x = b`; `info ≠ 0` ⇒ the returned array is `b`, untouched) -/
+inductive Outcome (V : Type) | raised | returned (v : V)
+
+def solveLinearEquation {V : Type} (infoChecked : Bool) (info : Int) (x b : V) : Outcome V :=
+  if info ≠ 0 then (if infoChecked then .raised else .returned b) else .returned x
+
+/-- C06.c: with the extracted behaviour (`info` is checked — fix of F3) whatever is returned is LAPACK's solution:
+    the solver returns a solution of the normal equations or fails loudly. -/
+theorem returns_a_solution_or_raises {V : Type} (info : Int) (x b v : V)
+    (h : solveLinearEquation Gen.posvInfoChecked info x b = .returned v) : info = 0 ∧ v = x := by
+  have hc : Gen.posvInfoChecked = true := by decide
+  rw [hc] at h
+  unfold solveLinearEquation at h
+  by_cases hi : info = 0
+  · simp [hi] at h; exact ⟨hi, h.symm⟩
+  · simp [hi] at h
+
+/-- …and the negation for the code as it was before the fix: `A = [[1,1],[1,1]]`, `b = [1,1]` (posv: info = 2)
+    returned `b` itself. -/
+theorem unchecked_info_returns_the_rhs :
+    solveLinearEquation false 2 (none : Option (List Int)) (some [1, 1]) = .returned (some [1, 1]) := by
+  rfl
 
 end Symfc.C06
